@@ -272,6 +272,15 @@ func (e *Engine) vrtCall(name string, f *ssa.Function, args []Val) (Val, bool) {
 	case "CaptureStart":
 		e.out = nil
 		return nil, true
+	case "CapturedAll":
+		var all Val = Str("")
+		for _, ev := range e.out {
+			if ev.kind == "print" || ev.kind == "println" || ev.kind == "printf" {
+				all = concat(all, ev.text)
+			}
+		}
+		e.out = nil
+		return all, true
 	case "Captured":
 		// everything printed up to the interpreter's runtime error report (as the native capture)
 		var out Val = Str("")
